@@ -107,6 +107,7 @@ type Path struct {
 	fnsHit    map[*ssa.Function]bool
 	nQueries  int
 	mapOrderRev bool
+	mapRanges   int // iterations over unobserved maps of more than one entry
 	relevant     map[*Var]bool
 	pending      map[*Var][]*Term
 	jsonText     bool                // JSON text layer enabled (vJSONText)
